@@ -178,9 +178,27 @@ class C08(Prop):
             held = m[1]
         return [outs, befores]
 
+    @staticmethod
+    def _hop_args(c):
+        """frames-hop history in the shape of the finer model: reports inside the first transmission step, then timer expiries
+        with the reports handled inside their step, and ordinary reports"""
+        evs = list(c["events"])
+        during0 = [evs.pop(0)[1]] if evs and evs[0][0] == 3 else []
+        hevs = []
+        for i, ev in enumerate(evs):
+            if ev[0] == 0:
+                hevs.append([0, []])
+            elif ev[0] == 3 and i > 0 and evs[i - 1][0] == 0:
+                hevs[-1][1].append(ev[1])
+            else:
+                hevs.append([1, ev[1]])
+        return [[c["tracking"]] * 12, c["triple"], c["req"], c["retries"], during0, hevs]
+
     def model_many(self, cases):
         single = [c for c in cases if c["kind"] != "two-calls"]
-        res = iter(model.call_many("run_set", [self._margs(c) for c in single]))
+        # frames-hop: the finer model (Model/ParamSetHop.v), proved equal to the coarse one on the flattened history (C08_hop_refines)
+        res = iter([model.call("run_set_hop", self._hop_args(c)) if c["kind"] == "frames-hop" else r
+                    for c, r in zip(single, model.call_many("run_set", [self._margs(c) for c in single]))])
         out = []
         for c in cases:
             if c["kind"] == "two-calls":
